@@ -91,6 +91,7 @@ type Exec struct {
 	contTerms []Term
 	params []Term
 	escapes map[*cell]bool
+	escapeAt map[*cell][]*ssa.BasicBlock
 	lateStore map[*cell]bool
 	unrollDepth map[*ssa.BasicBlock]int
 	summaries []loopSummary
@@ -102,6 +103,7 @@ type Exec struct {
 	loadedFrom map[ssa.Value]*lval // values loaded from a path inside a local cell
 	goalSk []Term
 	dirty  map[string]bool
+	sorts  []sortEvent
 }
 
 func (e *Exec) root() *Exec {
@@ -236,18 +238,56 @@ func (e *Exec) asTerm(x val, t types.Type) Term {
 		ps := e.g.sortOf(t)
 		content := e.load(x.lv)
 		if x.lv.cell != nil {
-			e.root().escapes[x.lv.cell] = true
+			e.noteEscape(x.lv.cell)
 		}
 		return "(ptr_" + ps + " " + content + ")"
 	}
 	if x.cell != nil {
-		e.root().escapes[x.cell] = true
+		e.noteEscape(x.cell)
 		return e.cellGet(x.cell)
 	}
 	if x.t == "" && x.fn != nil {
 		return e.fnConst(x.fn)
 	}
 	return x.t
+}
+
+func (e *Exec) noteEscape(c *cell) {
+	r := e.root()
+	r.escapes[c] = true
+	if r.escapeAt == nil {
+		r.escapeAt = map[*cell][]*ssa.BasicBlock{}
+	}
+	r.escapeAt[c] = append(r.escapeAt[c], e.curBlock)
+}
+
+// escapedBefore: some recorded escape of c can be followed (in the control-flow graph) by the current block.
+func (e *Exec) escapedBefore(c *cell) bool {
+	r := e.root()
+	if !r.escapes[c] {
+		return false
+	}
+	for _, from := range r.escapeAt[c] {
+		if from == nil || from == e.curBlock {
+			return true
+		}
+		seen := map[*ssa.BasicBlock]bool{from: true}
+		stack := []*ssa.BasicBlock{from}
+		for len(stack) > 0 {
+			b := stack[len(stack)-1]
+			stack = stack[:len(stack)-1]
+			for _, s := range b.Succs {
+				if s == e.curBlock {
+					return true
+				}
+				if !seen[s] {
+					seen[s] = true
+					stack = append(stack, s)
+				}
+			}
+		}
+	}
+	return false
 }
 
 // peekTerm: like asTerm but without recording an escape (used by specifications only).
@@ -488,7 +528,7 @@ func (e *Exec) store(lv *lval, nv Term, pos token.Pos) {
 		// semantics model ignores the write; every later read of an affected field is havocked (see dirty).
 		return
 	}
-	if e.root().escapes[lv.cell] {
+	if e.escapedBefore(lv.cell) {
 		e.root().lateStore[lv.cell] = true
 	}
 	e.cellSet(lv.cell, e.writePath(e.cellGet(lv.cell), lv.cell.typ, lv.path, nv))
@@ -759,10 +799,14 @@ func (e *Exec) instr(b *ssa.BasicBlock, in ssa.Instruction, preds []*ssa.BasicBl
 			pt = types.Typ[types.String]
 		}
 		c := e.newCell(x, pt, "var")
+		delete(e.root().escapes, c) // a fresh object per execution of the allocation
+		delete(e.root().escapeAt, c)
 		e.cur[c] = e.g.zero(pt)
 		e.setVal(x, val{lv: &lval{cell: c}})
 	case *ssa.MakeSlice:
 		c := e.newCell(x, x.Type(), "slice")
+		delete(e.root().escapes, c)
+		delete(e.root().escapeAt, c)
 		s := e.g.sortOf(x.Type())
 		n := e.term(x.Len)
 		e.oblige("makeslice", "(>= "+n+" 0)", x.Pos())
@@ -771,6 +815,8 @@ func (e *Exec) instr(b *ssa.BasicBlock, in ssa.Instruction, preds []*ssa.BasicBl
 		e.setVal(x, val{cell: c})
 	case *ssa.MakeMap:
 		c := e.newCell(x, x.Type(), "map")
+		delete(e.root().escapes, c)
+		delete(e.root().escapeAt, c)
 		s := e.g.sortOf(x.Type())
 		mt := x.Type().Underlying().(*types.Map)
 		e.cur[c] = e.def("mkmap", s, fmt.Sprintf("(mk_%s false %s ((as const (Array %s Bool)) false))", s, e.g.constArray(e.g.sortOf(mt.Key()), mt.Elem()), e.g.sortOf(mt.Key())))
@@ -1141,7 +1187,7 @@ func (e *Exec) sliceInstr(x *ssa.Slice) {
 		}
 		content := e.load(base.lv)
 		if base.lv.cell != nil {
-			e.root().escapes[base.lv.cell] = true
+			e.noteEscape(base.lv.cell)
 		}
 		srt := e.g.sortOf(x.Type())
 		e.oblige("slice", fmt.Sprintf("(and (<= 0 %s) (<= %s %s) (<= %s %d))", lo, lo, hi, hi, at.Len()), x.Pos())
